@@ -186,6 +186,9 @@ func checkC06(c *Ctx) {
 		_, h := sub.staleTip("STALE", sub.AllFuncs(), "")
 		c.Control("STALE", h > 0, "fixture.C06StaleTip asks Tip() of a node it has just detached")
 	}
+	c.Decides("PATH: UpdateTipIndex empties the name index unconditionally before refilling it; STALE-MEMO: the prune command recomputes per input tree what it derives from that tree")
+	c.tipIndexReset("PATH")
+	c.memoStale("STALE-MEMO", "cmd", "cmd/prune.go", "its tip set is exactly the requested one")
 	c.checkPair("PAIR", map[string]bool{"removeTip": true})
 	c.Floor("PAIR", 4)
 	c.Floor("GF", 2)
